@@ -799,6 +799,31 @@ fn run_case(src: &str, path: Option<&str>, opts: usize, features: wgt::Features)
         }
     };
     let (gen, ngroups) = generated_entries(&fx, &mut rep.notes);
+    // "the generated bind group layouts taken in pipeline-layout order": position i of create_pipeline_layout's
+    // bind_group_layouts is what the pipeline sees as group i.  Entries of a group the list leaves out are not there for the
+    // pipeline; a group listed at another position is seen at that position.
+    let (gen, ngroups) = match child(&fx, "pipelineLayout").and_then(|p| items(p).get(1)).and_then(|o| items(o).get(1)).and_then(|pl| child(pl, "groups")) {
+        Some(gl) => {
+            let order: Vec<u32> = items(gl).iter().skip(1).filter_map(as_u32).collect();
+            let mut remapped = vec![];
+            for (pos, k) in order.iter().enumerate() {
+                for e in gen.iter().filter(|e| e.group == *k) {
+                    remapped.push(GenEntry { group: pos as u32, entry: e.entry.clone() });
+                }
+            }
+            let identity = order.iter().enumerate().all(|(i, k)| i as u32 == *k) && order.len() == ngroups;
+            if !identity {
+                rep.notes.push(format!("pipeline layout lists groups {order:?}; module has {ngroups} group(s)"));
+            }
+            (remapped, order.len())
+        }
+        None => {
+            if ngroups > 0 {
+                rep.notes.push("facts: create_pipeline_layout not readable; groups taken by their own number".into());
+            }
+            (gen, ngroups)
+        }
+    };
 
     let lim = limits();
     let iface = Interface::new(&module, &info, lim.clone());
